@@ -81,7 +81,9 @@ def run(C, R):
         add_fns = set()
         from rl import breach_wrappers
         # the state's methods, plus the functions outside the state layer that act as transitions of their own
-        subjects = [m for m in F.methods_of(STATE)] + [F.fn(p) for p in sorted(breach_wrappers(F, CG).get(STATE, {}))]
+        # (private helpers of the state layer are judged inlined into the transitions that call them - on their own
+        # they do not carry the guards of their callers)
+        subjects = list(entry_methods(F, CG, STATE))
         for m in subjects:
             if m.get('name') == 'new':
                 continue
